@@ -3,6 +3,7 @@ import FP.Spec.Routes
 import FP.Proofs.NodeExpandStr
 import FP.Proofs.NodeExpandGraph
 import FP.Proofs.NodeExpandKFD
+import FP.Proofs.NodeExpandModes
 /-!
 # C11 — node-weighted solving equals solving the explicitly node-expanded instance
 
@@ -25,6 +26,15 @@ end in `.0` / `.1`):
   "all original edges and all attribute-less nodes are ignored, only node copies carry values". That the
   Lean `kfdNodeLP` *is* what the real constructor builds is not a theorem: it is checked by the 3-way K2
   LP-dump comparison in `harness/props/c11.py`.
+* the same equality for the node branches of `kLeastAbsErrors`, `kMinPathError` (with additional starts / ends,
+  `error_scaling`, `path_length_ranges` / `path_length_factors`, `encode_edge_position`) and of
+  `kPathCover(cover_type="node")` (model: `FP/Model/NodeExpandModes.lean`):
+  `node_mode_is_edge_mode_on_expansion_klae`, `…_kmpe`, `…_kcover`. For `kPathCover` the equality needs a
+  hypothesis: the class builds its `NodeExpandedDiGraph` *without* `node_length_attr`, so the copy `(u.1, v.0)` of an
+  original edge that lacks the length attribute counts with length 1 in `subpath_constraints_coverage_length`
+  constraints, where the expansion of the other classes gives it length 0; `kcover_node_mode_length_witness` is a
+  concrete input on which the two LPs differ (replayed on the real classes by the check: `kPathCover(k=1)` is
+  infeasible in node mode and feasible on the expansion, `MinPathCover` answers 2 instead of 1).
 
 The candidate falsifiers of the design notes are settled as follows: dotted names do **not** break
 condensing (`condense_expand`, `dotted_names_condense_witness`); the other candidates
@@ -168,6 +178,72 @@ theorem node_mode_accepted_has_active (inp : NodeFlowInput) (fi : FlowInput) (h 
     kfdNodeTranslate inp = .ok fi ∧ fi.activeEdges ≠ [] ∧ fi.cfg.k ≠ 0 :=
   NX.kfdNodeInternal_ok h
 
+/-! ## node mode = edge mode on the expansion, for more classes -/
+
+/-- **kLeastAbsErrors.** Whenever the node branch of `kLeastAbsErrors.__init__` accepts its input (constraints,
+additional starts / ends, ignored nodes and the keys of `error_scaling` are known nodes, …), the LP it builds
+equals the LP of the edge-level model on the explicit expansion: starts `v.0`, ends `v.1`, error scaling on the
+node copies, all original edges and all attribute-less nodes ignored, only node copies carry values, lengths as
+`NodeExpandedDiGraph(node_length_attr=length_attr)` defines them. `hc`, `hef` as for `kFlowDecomp`. -/
+theorem node_mode_is_edge_mode_on_expansion_klae (inp : NodeModeInput) (lp : LP) (hc : Closed inp.nf.ng.g)
+    (hef : ∀ p ∈ inp.nf.ng.edgeFlow, p.1 ∈ inp.nf.ng.g.edges) (h : klaeNodeLP inp = .ok lp) :
+    lp = klaeLP (expandModeInput inp false) :=
+  NX.nxm_klae_node_eq inp lp hc hef h
+
+/-- **kMinPathError** (`encode_edge_position=True`; `path_length_ranges` / `path_length_factors` are passed
+through unchanged by both branches) -/
+theorem node_mode_is_edge_mode_on_expansion_kmpe (inp : NodeMpeInput) (lp : LP) (hc : Closed inp.nm.nf.ng.g)
+    (hef : ∀ p ∈ inp.nm.nf.ng.edgeFlow, p.1 ∈ inp.nm.nf.ng.g.edges) (h : kmpeNodeLP inp = .ok lp) :
+    lp = kmpeLP (expandMpeInput inp) :=
+  NX.nxm_kmpe_node_eq inp lp hc hef h
+
+/-- **kPathCover(cover_type="node").** The node branch equals the edge branch on the explicit expansion (every
+node an edge to be covered unless the caller ignores it, all original edges ignored) **provided** the length
+attribute as the class reads it (`coverLengths`: copied attributes, default 1 — the class does not pass
+`node_length_attr`) and as the expansion of the property text defines it (`expandLengths`: an original edge
+without the attribute has length 0) agree on every edge of every expanded constraint, or
+`subpath_constraints_coverage_length` is not set. Without the hypothesis the equality fails
+(`kcover_node_mode_length_witness`). -/
+theorem node_mode_is_edge_mode_on_expansion_kcover (inp : NodeModeInput) (lp : LP) (hc : Closed inp.nf.ng.g)
+    (hlen : inp.nf.coverageLength = none ∨
+      ∀ con ∈ specConstraints inp.nf.constraints, ∀ e ∈ con,
+        lenAt (coverLengths inp.nf.ng) e = lenAt (expandLengths inp.nf.ng) e)
+    (h : kcoverNodeLP inp = .ok lp) : lp = kcoverLP (expandCoverInput inp) :=
+  NX.nxm_kcover_node_eq inp lp hc hlen h
+
+/-- the hypothesis holds when the constraints are given as lists of nodes … -/
+theorem kcover_lengths_agree_on_node_constraints (ng : NodeGraph) (l : List (List Node)) :
+    ∀ con ∈ specConstraints (.nodes l), ∀ e ∈ con,
+      lenAt (coverLengths ng) e = lenAt (expandLengths ng) e :=
+  NX.nxm_len_agree_nodes ng l
+
+/-- … and when every original edge carries the length attribute (then the two readings are the same list) -/
+theorem kcover_lengths_eq_of_all_edges (ng : NodeGraph)
+    (hall : ∀ e ∈ ng.g.edges, (ng.edgeLen.lookup e).isSome = true) : coverLengths ng = expandLengths ng :=
+  NX.nxm_lengths_eq_of_all ng hall
+
+/-- the ignore list the node branches build is, as a set, that of the property text, and outside it the
+attribute copied onto the expansion is the node's value -/
+theorem node_branch_ignore_and_values (ng : NodeGraph) (hc : Closed ng.g)
+    (hef : ∀ p ∈ ng.edgeFlow, p.1 ∈ ng.g.edges) (ignoreNodes : List Node) (e : Edge) :
+    (e ∈ (edgesToIgnore ng ++ ignoreNodes.map nodeEdge).eraseDups ↔
+      (∃ x ∈ ng.g.edges, e = edgeEdge x) ∨ (∃ v ∈ ng.g.nodes, ng.hasFlow v = false ∧ e = nodeEdge v) ∨
+        (∃ v ∈ ignoreNodes, e = nodeEdge v)) ∧
+    ((edgesToIgnore ng ++ ignoreNodes.map nodeEdge).eraseDups.contains e = false →
+      lookupD (expandFlow ng) e 0 = lookupD (ng.nodeFlow.map fun p => (nodeEdge p.1, p.2)) e 0) := by
+  refine ⟨?_, NX.nxm_flow_agree ng hc hef ignoreNodes e⟩
+  rw [NX.nxm_ignore_mem ng hc ignoreNodes e]
+  simp only [nxmSpecIgnore, List.mem_append, List.mem_map, List.mem_filter]
+  constructor
+  · rintro ((⟨x, hx, rfl⟩ | ⟨v, ⟨hv, hf⟩, rfl⟩) | ⟨v, hv, rfl⟩)
+    · exact Or.inl ⟨x, hx, rfl⟩
+    · exact Or.inr (Or.inl ⟨v, hv, by simpa using hf, rfl⟩)
+    · exact Or.inr (Or.inr ⟨v, hv, rfl⟩)
+  · rintro (⟨x, hx, rfl⟩ | ⟨v, hv, hf, rfl⟩ | ⟨v, hv, rfl⟩)
+    · exact Or.inl (Or.inl ⟨x, hx, rfl⟩)
+    · exact Or.inl (Or.inr ⟨v, ⟨hv, by simp [hf]⟩, rfl⟩)
+    · exact Or.inr ⟨v, hv, rfl⟩
+
 /-! ## witnesses and non-vacuity -/
 
 def exG : Graph := { nodes := ["a.0", "a", "x.1.0"], edges := [("a", "a.0"), ("a.0", "x.1.0")] }
@@ -223,5 +299,100 @@ example : (kfdNodeTranslate exInp).toOption.map (·.ignore.length) = some 4 ∧
 /-- ignoring every node that carries a value is rejected, as the repaired constructor does -/
 example : kfdNodeInternal { exInp with ignoreNodes := ["a", "a.0"] } = .error "allignored" ∧
     (kfdNodeTranslate { exInp with ignoreNodes := ["a", "a.0"] }).toBool = true := ⟨rfl, rfl⟩
+
+/-! ### the other classes -/
+
+theorem exG_closed : Closed exG := by
+  intro e he
+  have : e = ("a", "a.0") ∨ e = ("a.0", "x.1.0") := by simpa [exG] using he
+  rcases this with rfl | rfl <;> decide
+
+/-- `exInp` with an additional start and end, and error scaling on two nodes (one factor 0: that node is ignored) -/
+def exMode : NodeModeInput :=
+  { nf := exInp, starts := ["a.0"], ends := ["a"], scaling := [("a", 1/2), ("x.1.0", 0)] }
+
+theorem exMode_hef : ∀ p ∈ exMode.nf.ng.edgeFlow, p.1 ∈ exMode.nf.ng.g.edges := by
+  intro p hp
+  have : p = (("a", "a.0"), 7) := by simpa [exMode, exInp] using hp
+  subst this; decide
+
+/-- the hypotheses of `node_mode_is_edge_mode_on_expansion_klae` are satisfiable -/
+example : ∃ lp, klaeNodeLP exMode = .ok lp ∧ lp = klaeLP (expandModeInput exMode false) := by
+  have hok : (klaeNodeLP exMode).toBool = true := by decide +kernel
+  cases h : klaeNodeLP exMode with
+  | error e => rw [h] at hok; cases hok
+  | ok lp => exact ⟨lp, rfl, node_mode_is_edge_mode_on_expansion_klae exMode lp exG_closed exMode_hef h⟩
+
+/-- … and the two records differ (ignore list: code order with duplicates removed vs the list of the property
+text; values: the copied edge attribute is not in the explicit expansion) -/
+example : (klaeNodeInternal exMode).toOption.map (·.fi.ignore) ≠ some (expandModeInput exMode false).fi.ignore ∧
+    (klaeNodeInternal exMode).toOption.map (·.fi.flow.length) = some 3 ∧
+    (expandModeInput exMode false).fi.flow.length = 2 ∧
+    (expandModeInput exMode false).fi.starts = ["a.0.0"] ∧ (expandModeInput exMode false).fi.ends = ["a.1"] ∧
+    (expandModeInput exMode false).scaling = [(("a.0", "a.1"), 1/2), (("x.1.0.0", "x.1.0.1"), 0)] := by
+  decide +kernel
+
+def exMpe : NodeMpeInput :=
+  { nm := { exMode with nf := { exInp with weightInt := true } }, ranges := [(0, 2), (3, 9)], factors := [1, 2] }
+
+/-- the hypotheses of `node_mode_is_edge_mode_on_expansion_kmpe` are satisfiable (integer weights, two length
+ranges with factors) -/
+example : ∃ lp, kmpeNodeLP exMpe = .ok lp ∧ lp = kmpeLP (expandMpeInput exMpe) := by
+  have hok : (kmpeNodeLP exMpe).toBool = true := by decide +kernel
+  cases h : kmpeNodeLP exMpe with
+  | error e => rw [h] at hok; cases hok
+  | ok lp => exact ⟨lp, rfl, node_mode_is_edge_mode_on_expansion_kmpe exMpe lp exG_closed exMode_hef h⟩
+
+/-- unknown nodes among the starts or the keys of `error_scaling` are rejected, as `get_expanded_edge` does -/
+example : (klaeNodeLP { exMode with starts := ["nosuch"] }).toBool = false ∧
+    (klaeNodeLP { exMode with scaling := [("nosuch", 1)] }).toBool = false ∧
+    (klaeNodeLP { exMode with scaling := [("a", 2)] }).toBool = false := by decide +kernel
+
+/-- `a → b`, `a → c → b`, every node of length 1, no edge carries the length attribute; the constraint is the
+*edge* `(a, b)`, 75 % of its length must lie on one path; `k = 1` -/
+def exCover : NodeModeInput :=
+  { nf := { ng := { g := { nodes := ["a", "b", "c"], edges := [("a", "b"), ("a", "c"), ("c", "b")] },
+                    nodeLen := some [("a", 1), ("b", 1), ("c", 1)] },
+            constraints := .edges [[("a", "b")]], k := 1, coverageLength := some (3/4) } }
+
+theorem exCover_closed : Closed exCover.nf.ng.g := by
+  intro e he
+  have : e = ("a", "b") ∨ e = ("a", "c") ∨ e = ("c", "b") := by simpa [exCover] using he
+  rcases this with rfl | rfl | rfl <;> decide
+
+/-- the coefficients of all rows of an LP (a decidable fingerprint) -/
+def rowCoeffs (lp : LP) : List (List Rat) := lp.rows.map fun r => r.terms.map (·.1)
+
+/-- **the hypothesis of `node_mode_is_edge_mode_on_expansion_kcover` cannot be dropped**: on `exCover` the node
+branch of `kPathCover` and the edge branch on the explicit expansion build different LPs — the constraint
+`(a.0,a.1), (a.1,b.0), (b.0,b.1)` has lengths `1, 1, 1` (threshold `9/4`) in the node branch and `1, 0, 1`
+(threshold `3/2`) on the expansion. The path `a, c, b` covers every node and satisfies the latter, not the
+former. -/
+theorem kcover_node_mode_length_witness :
+    ∃ lp, kcoverNodeLP exCover = .ok lp ∧ lp ≠ kcoverLP (expandCoverInput exCover) ∧
+      lenAt (coverLengths exCover.nf.ng) ("a.1", "b.0") = 1 ∧
+      lenAt (expandLengths exCover.nf.ng) ("a.1", "b.0") = 0 := by
+  have hok : (kcoverNodeLP exCover).toBool = true := by decide +kernel
+  cases h : kcoverNodeLP exCover with
+  | error e => rw [h] at hok; cases hok
+  | ok lp =>
+    refine ⟨lp, rfl, ?_, by decide +kernel, by decide +kernel⟩
+    intro heq
+    have h1 : (kcoverNodeLP exCover).toOption.map rowCoeffs
+        = some (rowCoeffs (kcoverLP (expandCoverInput exCover))) := by
+      rw [h, ← heq]; rfl
+    revert h1
+    decide +kernel
+
+/-- with the constraint given as the node list `[a, b]` the hypothesis holds and the LPs coincide -/
+example : ∃ lp, kcoverNodeLP { exCover with nf := { exCover.nf with constraints := .nodes [["a", "b"]] } } = .ok lp ∧
+    lp = kcoverLP (expandCoverInput { exCover with nf := { exCover.nf with constraints := .nodes [["a", "b"]] } }) := by
+  have hok : (kcoverNodeLP { exCover with nf := { exCover.nf with constraints := .nodes [["a", "b"]] } }).toBool
+      = true := by decide +kernel
+  cases h : kcoverNodeLP { exCover with nf := { exCover.nf with constraints := .nodes [["a", "b"]] } } with
+  | error e => rw [h] at hok; cases hok
+  | ok lp =>
+    exact ⟨lp, rfl, node_mode_is_edge_mode_on_expansion_kcover _ lp exCover_closed
+      (Or.inr (kcover_lengths_agree_on_node_constraints _ _)) h⟩
 
 end FP.Props.C11
